@@ -80,6 +80,11 @@ ITER_MUTATORS = {
     "rotate", "partial_sort", "nth_element", "random_shuffle", "shuffle", "remove", "unique", "memset",
     "memcpy", "for_each", "move", "copy_n", "copy_backward",
 }
+# member functions that hand out an iterator / pointer INTO the container (wave 4: "claim then fill in place")
+ITER_SOURCES = {"begin", "end", "rbegin", "rend", "cbegin", "cend", "data"}
+# member functions after which iterators / pointers into a contiguous container may dangle (reallocation)
+REALLOC_METHODS = {"resize", "reserve", "push_back", "emplace_back", "insert", "emplace", "conservativeResize", "assign",
+                   "shrink_to_fit", "swap", "clear", "erase", "pop_back"}
 KEYWORDS = {
     "for", "while", "if", "else", "do", "return", "continue", "break", "new", "delete", "const",
     "static", "typename", "template", "struct", "class", "namespace", "using", "typedef", "switch",
@@ -450,6 +455,7 @@ class Analyzer:
         self.loops = []          # (var, lo_toks, hi_toks, cmp, valid)
         self.iv = None
         self.crit = False
+        self.iter_alias = {}     # local name -> {"var": shared container, "crit": obtained under the lock?, "line"}
         self.cond = 0
         self.depth = 0           # nesting below the omp-for body (0 = top level statement of the body)
         for p in self.priv:
@@ -767,6 +773,70 @@ class Analyzer:
                     self.untracked(toks, p)
                 p += 1
 
+    # ---- iterators / pointers into a shared container (wave 4)
+    def note_iter_alias(self, name, rhs, line):
+        """`name` (a variable local to the iteration or to the thread) is given a value computed from
+        SHARED.begin() / end() / data() / &SHARED[e] or from another such alias: from here on it points INTO the shared
+        container; what is written through it is written to the container, by whoever holds it, whenever."""
+        for q, t in enumerate(rhs):
+            if t.k != "id" or (q > 0 and rhs[q - 1].s in (".", "->", "::")):
+                continue
+            if t.s in self.iter_alias and t.s != name:
+                self.iter_alias[name] = dict(self.iter_alias[t.s])
+                return True
+            if self.tracked(t.s) != "shared":
+                continue
+            ch, _ = self.chain(rhs, q)
+            mem = [el[1] for el in ch if el[0] == "member"]
+            addr = q > 0 and rhs[q - 1].s == "&" and (q == 1 or rhs[q - 2].s in ("(", ",", "=", "+", "-", "return")) \
+                and bool(ch) and ch[0][0] in ("index", "call")
+            handed = len(ch) >= 2 and ch[-1][0] == "call" and ch[-2][0] == "member" and ch[-2][1] in ITER_SOURCES
+            if handed or addr:
+                self.iter_alias[name] = {"var": t.s, "crit": self.crit, "line": line,
+                                         "how": "&%s[...]" % t.s if addr else "%s.%s()" % (t.s, ch[-2][1])}
+                return True
+        return False
+
+    def escape_write(self, alias, line, how):
+        a = self.iter_alias[alias]
+        self.access(a["var"], True, "AEscape", line=line,
+                    what="%s `%s`, an iterator / pointer into `%s` obtained from %s %s (line %d), written through %s" % (
+                        how, alias, a["var"], a["how"],
+                        "inside a critical section" if a["crit"] else "outside any critical section", a["line"],
+                        "inside a critical section" if self.crit else "OUTSIDE the critical section"))
+        self.r.accesses[-1]["form"] = ["opaque"]
+        self.r.accesses[-1]["escape"] = {"alias": alias, "obtained_crit": a["crit"], "obtained_line": a["line"]}
+
+    def iter_writes(self, toks, line):
+        """writes through a registered alias in one simple statement: `*it = v`, `*it++ = v`, `it[e] = v`, `it->m = v`,
+        and the alias handed to a standard algorithm as an output position"""
+        if not self.iter_alias:
+            return
+        n = len(toks)
+        for q, t in enumerate(toks):
+            if t.k != "id" or t.s not in self.iter_alias or (q > 0 and toks[q - 1].s in (".", "->", "::")):
+                continue
+            # the extent of the lvalue expression around the alias
+            b = q
+            while b > 0 and toks[b - 1].s in ("*", "(", "++", "--"):
+                b -= 1
+            e = q + 1
+            while e < n and toks[e].s in ("++", "--", ")"):
+                e += 1
+            deref = any(x.s == "*" for x in toks[b:q])
+            if e < n and toks[e].s == "[":
+                e = match_close(toks, e) + 1
+                deref = True
+            elif e + 1 < n and toks[e].s == "->":
+                e += 2
+                deref = True
+            if deref and e < n and toks[e].s in ASSIGN_OPS:
+                self.escape_write(t.s, line, "assignment through")
+                continue
+            fn, is_method = self.enclosing_call(toks, q)
+            if fn is not None and not is_method and (fn in ITER_MUTATORS or fn == "copy"):
+                self.escape_write(t.s, line, "%s(...) writes through" % fn)
+
     # ---- statements
     def assigned_in(self, var, stmt):
         toks = flatten(stmt)
@@ -784,6 +854,7 @@ class Analyzer:
         if toks[0].s in ("return", "delete", "throw"):
             self.scan(toks[1:])
             return
+        self.iter_writes(toks, line)
         d = decl_names(toks)
         if d is not None:
             # a reference / pointer / `auto` (Eigen view) declaration initialised from a tracked variable is an
@@ -820,6 +891,8 @@ class Analyzer:
                             continue
                 self.scan(rest)
                 self.locals.add(name)
+                if init and self.tracked(name) != "shared":
+                    self.note_iter_alias(name, init, line)
             return
         # top-level assignment operator
         depth = 0
@@ -837,6 +910,8 @@ class Analyzer:
             return
         lhs, op, rhs = toks[:a], toks[a].s, toks[a + 1:]
         self.scan(rhs)
+        if len(lhs) == 1 and lhs[0].k == "id" and op == "=" and self.tracked(lhs[0].s) != "shared":
+            self.note_iter_alias(lhs[0].s, rhs, line)
         base = 0
         while base < len(lhs) and lhs[base].s in ("*", "("):
             base += 1
